@@ -99,6 +99,8 @@ def one(scn, co, plan, res):
     for e in r['events']:
         res.states.add((e['code'], e['mode'], min(e['excess'] or 0, 5), min(e['frames'], 4)))
     for cls, d in r['problems']:
+        if not cls.startswith('C03:'):
+            continue        # another property's invariant (reported by its own check)
         res.violation(cls, dict(d, plan=plan, outcome=r['out']), _mk(scn, plan),
                       sig=dict(d.get('flags', {})))
     if r['out']['exc'] is not None and r['out']['exc']['type'] in ('AssertionError', 'IndexError'):
